@@ -27,6 +27,7 @@ from __future__ import annotations
 
 import json
 import multiprocessing as mp
+import signal
 import sys
 import time
 import zlib
@@ -206,6 +207,24 @@ def evaluate(model, dpd, events, couplings):
     return np.broadcast_to(val, (len(events),)).copy()
 
 
+class CpuBudget(BaseException):
+    """raised by the SIGVTALRM handler: the CPU budget of one model evaluation is used up"""
+
+
+def _on_budget(*_):
+    raise CpuBudget
+
+
+def with_budget(seconds, fn, *args):
+    """Run fn(*args) with a limit on the process' user CPU time (robust against machine load)."""
+    signal.signal(signal.SIGVTALRM, _on_budget)
+    signal.setitimer(signal.ITIMER_VIRTUAL, seconds)
+    try:
+        return fn(*args)
+    finally:
+        signal.setitimer(signal.ITIMER_VIRTUAL, 0)
+
+
 def run_reaction(task):
     label, alignments, seed, nev, tier = task
     t0 = time.process_time()
@@ -244,8 +263,12 @@ def run_reaction(task):
         return res
     names = sorted(str(s) for s in models["none"][0].parameter_defaults)
     couplings = {n: complex(rng.normal(), rng.normal()) for n in names}
+    budget = 90 if tier == "quick" else 150
     try:
-        ref = evaluate(*models["none"], events, couplings).real
+        ref = with_budget(budget, evaluate, *models["none"], events, couplings).real
+    except CpuBudget:
+        kind("cpu_budget_exceeded")
+        return res
     except Exception as e:  # noqa: BLE001
         res["failures"].append({"signature": "harness_eval_error", "what": f"{label}/none: {type(e).__name__}: {str(e)[:150]}",
                                 "case": {"kind": "model", "label": label, "alignment": "none", "seed": seed, "nev": nev}})
@@ -255,7 +278,10 @@ def run_reaction(task):
             continue
         cls = L.classify(reaction, al)
         try:
-            val = evaluate(model, dpd, events, couplings)
+            val = with_budget(budget, evaluate, model, dpd, events, couplings)
+        except CpuBudget:
+            kind("cpu_budget_exceeded")
+            continue
         except Exception as e:  # noqa: BLE001
             res["failures"].append({"signature": "aligned_model_not_evaluable", "what": f"{label}/{al}: {type(e).__name__}: {str(e)[:150]}",
                                     "case": {"kind": "model", "label": label, "alignment": al, "seed": seed, "nev": nev}})
@@ -327,9 +353,12 @@ def tasks_for(seed, n):
                 "jpsi_gpipi_hel", "jpsi_gpipi_f2_hel", "jpsi_ksp_hel", "jpsi_gkk_hel"):
             tasks.append((label + "+m0", ("dpd1", "dpd2", "dpd3"), seed, nev, tier))
     for label, _ in L.synthetic_reactions(tier):
-        tasks.append((label, L.ALIGNMENTS[1:], seed, nev, tier))
+        # spin 5/2 under DPD: d^{5/2} sums of 36 x 36 terms exceed the CPU budget; axis-angle only
+        als = ("axisangle",) if label == "synth_3b_f_0_00_f" else L.ALIGNMENTS[1:]
+        tasks.append((label, als, seed, nev, tier))
     # most expensive first
-    tasks.sort(key=lambda t: (not t[0].startswith(("jpsi_ksp", "jpsi_gpipi_f2", "synth_3b", "lc_pkpi_can")), t[0]))
+    heavy = ("synth_3b_2_0", "synth_3b_h_1_h0_1", "synth_3b_t_", "synth_3b_f_", "synth_3b_0_1", "d0_k3pi", "jpsi_ksp1750")
+    tasks.sort(key=lambda t: (not t[0].startswith(heavy), not t[0].startswith(("synth_3b", "jpsi_ksp", "lc_pkpi_can", "synth_2b_0_ff", "synth_2b_2")), t[0]))
     return tasks, tier
 
 
